@@ -222,9 +222,10 @@ QUICK: Dict[str, Dict[str, Any]] = {
     'loopback-ptr-ptr': {'events': [q((T1, PTR)), q((T1, PTR))], 'loopback': True, 'services': ['S1']},
     'loopback-ptr-srv': {'events': [q((T1, PTR)), q((N1, SRV))], 'loopback': True, 'services': ['S1']},
     'loopback-srv-srv': {'events': [q((N1, SRV)), q((N1, SRV))], 'loopback': True, 'services': ['S1']},
+    'loopback-srv-ptr-srv': {'events': [q((N1, SRV)), q((T1, PTR)), q((N1, SRV))], 'loopback': True, 'services': ['S1']},
+    'ptr-ptr-ptr': {'events': [q((T1, PTR)), q((T1, PTR)), q((T2, PTR))]},
 }
 THOROUGH: Dict[str, Dict[str, Any]] = {
-    'ptr-ptr-ptr': {'events': [q((T1, PTR)), q((T1, PTR)), q((T2, PTR))]},
     'ptr-txt-ptr2': {'events': [q((T1, PTR)), q((N1, TXT)), q((T2, PTR))]},
     'txt-sighted+ptr': {'events': [q((N1, TXT)), q((T1, PTR))], 'sighted': [('S1', 'TXT')]},
     'multi-sighted': {'events': [q((N1, SRV), (N1, TXT))], 'sighted': [('S1', 'SRV'), ('S1', 'TXT')]},
